@@ -116,12 +116,17 @@ CHECKS = {
           'preserved, trigonometric constants, Nxxtop[0] = Fc/(2 pi r2 cos(alpha)).  ConeCyl.calc_fext is executed symbolically with the real fg of the model\'s commons '
           'module for 17 models x {pdC} x {pdT}: every entry equals the virtual work of point forces, harmonic axial line load, pressure and torque on the basis '
           'functions that cfuvw of the same module reports, incremental parts times the load factor, prescribed shortening/twist as -ck*Kuk[:,k]; the amplitude layout of '
-          'cfuvw/fg equals modelDB.  calc_full_c is executed symbolically for all admissible sets of prescribed amplitudes.  exclude_dofs_matrix is executed symbolically '
+          'cfuvw/fg equals modelDB.  Both for the instance (2,2,2) with the real fg and numpy\'s own delete/dot on symbolic entries, and for EVERY series order '
+          '(m1, m2, n2 symbolic): vectors over the amplitudes in decoded coordinates (family, series indices, p), the axial-load and pressure loops executed once '
+          'generically with the obligation that they cover the whole index range of their family, fg through a contract that is itself proved from the .pyx text '
+          '(every store g[d, column] of cfgss is component d of the cfuvw basis function of that amplitude).  calc_full_c is executed symbolically for all admissible '
+          'sets of prescribed amplitudes, for two concrete lengths and for vectors of symbolic length (explicit leading entries + generic tail position).  '
+          'exclude_dofs_matrix is executed symbolically '
           'on a COO matrix of symbolic size seen through one generic stored entry (all four admissible sets): kuu == K[free, free] entry by entry (position by z3), '
           'kuk == K[free, 0:3].'),
-    design_ref='DESIGN.md section 10.6 (C18)',
-    note=('calc_fext and calc_full_c: symbolic in every load, position, geometry and factor but for CONCRETE series orders (2,2,2) / vector lengths 12, 21 -- bounded in '
-          'the orders, listed as such in the evidence; exclude_dofs_matrix: proved under the numpy/scipy semantics listed as trusted (element-wise ops, where/take selection, toarray, delete), plus a bounded run-time stand-in on random COO matrices; ConeCyl.static itself rests on C04/C09 '
+    design_ref='DESIGN.md section 10.6 (C18), 10.12',
+    note=('calc_fext / calc_full_c for every series order rest on numpy semantics stated as assumptions (zeros, delete of leading amplitudes, +=, row vector . matrix, '
+          'insert inside the explicit prefix) and on tLArad = 0; exclude_dofs_matrix: proved under the numpy/scipy semantics listed as trusted (element-wise ops, where/take selection, toarray, delete), plus a bounded run-time stand-in on random COO matrices; ConeCyl.static itself rests on C04/C09 '
           '(Analysis.static, solve); the coupling of the always-prescribed third amplitude with the j2 = 1 terms is absent from the kernels (k0uk[:,2] == 0), so no '
           'right-hand-side term exists for a non-zero load-asymmetry amplitude: recorded as an observation in DESIGN, not decided here'),
     technique='contracts + symbolic execution of the Python ast and of the extracted .pyx field functions; exact normal form; symbolic integration by parts; bounded stand-ins labelled'),
